@@ -216,6 +216,9 @@ class Flow:
                     prov = self.closure_key_provenance(operand_local(t["a"][1]))
                     if prov is not None:
                         self.key_prov = prov
+                if name in ("flat_map", "flatten") and ai == 0:
+                    # one source entry now yields several items: items (and map keys built from them) of DIFFERENT entries can coincide
+                    self.flattened = True
                 if dest is not None:
                     self.follow(dest, "iter", depth + 1)
                 return
@@ -236,6 +239,8 @@ class Flow:
                         tt = strip_wrappers(target)
                         if ("Map<" in tt.split("<")[0] + "<") and getattr(self, "key_prov", None) == "value-only" and self.source_is_map:
                             self.issues.append(("extend-map-rekeyed-by-value", "keys inserted into the map are computed from the values only: equal keys collide and the survivor depends on hash order", line))
+                        elif ("Map<" in tt.split("<")[0] + "<") and getattr(self, "flattened", False):
+                            self.issues.append(("extend-map-after-flatten", "each hash-ordered entry contributes several keys (flat_map/flatten): keys from different entries can coincide, and the value that survives in the map is the one of the entry visited last", line))
                         else:
                             self.notes.append(("into-unordered", target[:50], line))
                     elif is_seq_target(target):
@@ -248,6 +253,8 @@ class Flow:
                     tt = strip_wrappers(target)
                     if ("Map<" in tt.split("<")[0] + "<") and getattr(self, "key_prov", None) == "value-only" and self.source_is_map:
                         self.issues.append(("collect-into-map-rekeyed-by-value", "keys of the new map are computed from the values only: equal keys collide and the survivor depends on hash order", line))
+                    elif ("Map<" in tt.split("<")[0] + "<") and getattr(self, "flattened", False):
+                        self.issues.append(("collect-into-map-after-flatten", "each hash-ordered entry contributes several keys (flat_map/flatten): keys from different entries can coincide, and the value that survives in the map is the one of the entry visited last", line))
                     else:
                         self.notes.append(("into-unordered", target[:50], line))
                 elif is_seq_target(target):
